@@ -3997,8 +3997,11 @@ def rule_guard_builders_by_evaluation(ctx, rep: Report, rid="M16"):
             env_v = {pv[0]: me, pv[1]: _sample_args(specs)}
             for p_, d_ in zip(pv[len(pv) - len(va.args.defaults):], va.args.defaults):
                 env_v.setdefault(p_, ast.literal_eval(d_))
+            env_m = {pm[0]: me, pm[1]: _sample_args(specs)}
+            for p_, d_ in zip(pm[len(pm) - len(mc.args.defaults):], mc.args.defaults):
+                env_m.setdefault(p_, ast.literal_eval(d_))
             texts["ctor/function"] = mini_exec(va, env_v, budget=12000, methods=methods)
-            texts["method"] = mini_exec(mc, {pm[0]: me, pm[1]: _sample_args(specs)}, budget=12000, methods=methods)
+            texts["method"] = mini_exec(mc, env_m, budget=12000, methods=methods)
         except (_PathEval.Unknown, _Raised, TypeError, KeyError, ValueError):
             continue
         if not all(isinstance(t, str) for t in texts.values()):
